@@ -65,34 +65,41 @@ impl InstructionGenerator {
                 self.generate_expression_instructions(s);
                 // A to D (step is in D)
                 self.push(Instruction::CopyAToD, pos);
+                // is step <> 0 ?
+                self.push(Instruction::NotEqual, pos);
+                self.jump_if_false("zero", pos);
+                // The loop body is generated only once (labels inside it are
+                // keyed by position, so they must not be emitted twice).
+                // The direction of the test is chosen at the loop point,
+                // based on the sign of the step which is kept in D.
+                self.label("step-loop", pos);
+                // load 0 to B
+                self.push_load(Variant::VInteger(0), pos);
+                self.push(Instruction::CopyAToB, pos);
+                // step from D to A
+                self.push(Instruction::CopyDToA, pos);
                 // is step < 0 ?
                 self.push(Instruction::Less, pos);
-                self.jump_if_false("test-positive-or-zero", pos);
-                // negative step
-                self.generate_for_loop_instructions_positive_or_negative_step(
-                    &counter_var_name,
-                    statements.clone(),
-                    false,
-                    pos,
-                );
-                // jump out
-                self.jump("out-of-for", pos);
-                // PositiveOrZero: ?
-                self.label("test-positive-or-zero", pos);
-                // need to load it again into A because the previous "LessThan" op overwrote A
-                self.push(Instruction::CopyDToA, pos);
-                // is step > 0 ?
-                self.push(Instruction::Greater, pos);
-                self.jump_if_false("zero", pos);
-                // positive step
-                self.generate_for_loop_instructions_positive_or_negative_step(
+                self.jump_if_false("test-positive", pos);
+                // negative step: counter >= upper bound ?
+                self.push(Instruction::CopyCToB, pos);
+                self.load_counter(&counter_var_name, pos);
+                self.push(Instruction::GreaterOrEqual, pos);
+                self.jump_if_false("out-of-for", pos);
+                self.jump("step-body", pos);
+                // positive step: counter <= upper bound ?
+                self.label("test-positive", pos);
+                self.push(Instruction::CopyCToB, pos);
+                self.load_counter(&counter_var_name, pos);
+                self.push(Instruction::LessOrEqual, pos);
+                self.jump_if_false("out-of-for", pos);
+                self.label("step-body", pos);
+                self.generate_for_loop_body_and_increment(
                     &counter_var_name,
                     statements,
-                    true,
+                    "step-loop",
                     pos,
                 );
-                // jump out
-                self.jump("out-of-for", pos);
                 // Zero step
                 self.label("zero", pos);
                 self.push(Instruction::Throw(RuntimeError::ForLoopZeroStep), step_pos);
@@ -138,6 +145,16 @@ impl InstructionGenerator {
         }
         self.jump_if_false("out-of-for", pos);
 
+        self.generate_for_loop_body_and_increment(counter_var_name, statements, loop_label, pos);
+    }
+
+    fn generate_for_loop_body_and_increment(
+        &mut self,
+        counter_var_name: &Expression,
+        statements: Statements,
+        loop_label: &str,
+        pos: Position,
+    ) {
         // push registers
         self.push(Instruction::PushRegisters, pos);
 
